@@ -627,6 +627,31 @@ func c19EvalExperiment(trials [][]int) [][2]string {
 	return fails
 }
 
+// c19Long: a series of n values (negative, zero and positive, with ties) in one of 2n+1 orders: rotation k of
+// the ascending series (kind 0), rotation k of the descending series (kind 1), even positions then odd (kind 2).
+func c19Long(n, kind, k int) experiment.Floats {
+	base := make([]float64, n)
+	for i := range base {
+		base[i] = 1.5 * float64(i/2-n/6)
+	}
+	x := make(experiment.Floats, n)
+	for i := range x {
+		switch kind {
+		case 0:
+			x[i] = base[(i+k)%n]
+		case 1:
+			x[i] = base[n-1-(i+k)%n]
+		default:
+			if 2*i < n {
+				x[i] = base[2*i]
+			} else {
+				x[i] = base[2*(i-(n+1)/2)+1]
+			}
+		}
+	}
+	return x
+}
+
 func runC19(c *Ctx) {
 	L := 6
 	maxTrials, maxGens := 2, 3
@@ -660,6 +685,33 @@ func runC19(c *Ctx) {
 			c.AddEval(int64(hi-lo) * int64(len(c19Calls)))
 		})
 	}
+	// long series: whatever threshold on the length an implementation may have lies inside
+	maxLong := 96
+	if !c.Quick() {
+		maxLong = 400
+	}
+	parFor(maxLong+1, func(n int) {
+		if n <= L {
+			return
+		}
+		var evals int64
+		for kind := 0; kind < 3; kind++ {
+			for k := 0; k < n; k++ {
+				if kind == 2 && k > 0 {
+					break
+				}
+				x := c19Long(n, kind, k)
+				evals += int64(len(c19Calls))
+				for _, f := range c19EvalSeries(x) {
+					c.ViolateOrd("C19/"+f[0], int64(1)<<50|int64(n)<<20|int64(kind)<<18|int64(k), fmt.Sprintf("%s for the series of %d values %v", f[1], n, []float64(c19Long(n, kind, k))),
+						&Replay{Scenario: "long", Params: map[string]interface{}{"n": n, "kind": kind, "k": k}})
+				}
+			}
+		}
+		c.Distinct(hashString(fmt.Sprint("long", n)))
+		c.AddEval(evals)
+	})
+	c.Rule += fmt.Sprintf("; LONG SERIES: for every length %d..%d the series 1.5*(i/2 - n/6) (negative, zero and positive values, ties) in every rotation of its ascending and of its descending order and in riffled order", L+1, maxLong)
 	c.Sample(map[string]interface{}{"series": []float64{3, -2.5, 1, 1e10}, "median_ref": 1, "q75_ref": 3})
 	// experiments
 	types := c19TrialTypes(maxGens)
@@ -700,6 +752,13 @@ func replayC19(c *Ctx, rp *Replay) (bool, string) {
 		x := c19Series(paramInt(rp, "idx"), paramInt(rp, "len"))
 		if f := c19EvalSeries(x); len(f) > 0 {
 			return true, fmt.Sprintf("%s for series %v", f[0][1], []float64(c19Series(paramInt(rp, "idx"), paramInt(rp, "len"))))
+		}
+		return false, fmt.Sprint([]float64(x))
+	}
+	if rp.Scenario == "long" {
+		x := c19Long(paramInt(rp, "n"), paramInt(rp, "kind"), paramInt(rp, "k"))
+		if f := c19EvalSeries(x); len(f) > 0 {
+			return true, fmt.Sprintf("%s for series %v", f[0][1], []float64(c19Long(paramInt(rp, "n"), paramInt(rp, "kind"), paramInt(rp, "k"))))
 		}
 		return false, fmt.Sprint([]float64(x))
 	}
